@@ -236,8 +236,15 @@ def main():
       continue
     sig = "crash:signal" if (cr["returncode"] or 0) < 0 else "crash:exit"
     tail = cr["stderr_tail"]
+    import re
+
+    where = re.search(r'File "[^"]*/mujoco_warp/_src/([a-z_]+)\.py", line \d+ in (\w+)', tail)
+    loc = f"{where.group(1)}.py:{where.group(2)}" if where else "unknown"
     if "Assertion failed" in tail:
-      sig = "oob-assert"
+      expr = re.search(r"Assertion failed: '([^']*)'", tail)
+      sig = f"oob-assert:{loc}"
+    else:
+      sig = f"{sig}:{loc}"
     v = {"sig": sig, "msg": f"worker died rc={cr['returncode']} during case", "data": {"stderr_tail": tail[-1500:]}}
     if crash_is_violation:
       viols.append((cr["case"], v))
